@@ -55,6 +55,68 @@ pub struct IterOut {
     pub ended: bool,
 }
 
+pub trait LiveIter {
+    /// the items already taken, then everything that is left (with the size hints seen)
+    fn drain(&mut self) -> IterOut;
+    fn flavour(&self) -> u8;
+    /// number of items taken before it was handed out
+    fn taken(&self) -> usize;
+}
+
+struct Live<I, T, F: Fn(T) -> (Option<Vec<u8>>, Option<Vec<u8>>)> {
+    it: Option<I>,
+    taken: Vec<(Option<Vec<u8>>, Option<Vec<u8>>)>,
+    conv: F,
+    f: u8,
+    _t: std::marker::PhantomData<T>,
+}
+
+impl<I: Iterator<Item = T>, T, F: Fn(T) -> (Option<Vec<u8>>, Option<Vec<u8>>)> LiveIter for Live<I, T, F> {
+    fn drain(&mut self) -> IterOut {
+        let mut out = IterOut::default();
+        out.items = std::mem::take(&mut self.taken);
+        if let Some(mut it) = self.it.take() {
+            loop {
+                crate::exec::tick();
+                out.hints.push(it.size_hint());
+                match it.next() {
+                    Some(x) => out.items.push((self.conv)(x)),
+                    None => {
+                        out.ended = true;
+                        break;
+                    }
+                }
+                if out.items.len() > 10_000_000 {
+                    break;
+                }
+            }
+        }
+        out
+    }
+    fn flavour(&self) -> u8 {
+        self.f
+    }
+    fn taken(&self) -> usize {
+        self.taken.len()
+    }
+}
+
+fn live<I: Iterator<Item = T> + 'static, T: 'static, F: Fn(T) -> (Option<Vec<u8>>, Option<Vec<u8>>) + 'static>(
+    mut it: I,
+    take: usize,
+    f: u8,
+    conv: F,
+) -> Box<dyn LiveIter> {
+    let mut taken = Vec::new();
+    for _ in 0..take {
+        match it.next() {
+            Some(x) => taken.push(conv(x)),
+            None => break,
+        }
+    }
+    Box::new(Live { it: Some(it), taken, conv, f, _t: std::marker::PhantomData })
+}
+
 pub trait MapH {
     fn kt(&self) -> Kt;
     fn put(&mut self, k: &[u8], v: &[u8]) -> Result<()>;
@@ -88,8 +150,12 @@ pub trait MapH {
     /// full traversal; before every `every`-th step `between(self_as_reader)` is called with a
     /// second handle of the same map, and a nested iterator is stepped
     fn iterate_mixed(&mut self, f: u8, every: usize, between: &mut dyn FnMut(&mut dyn MapH, usize)) -> IterOut;
+    /// traversal by repeated `nth(n)`
+    fn iterate_nth(&mut self, f: u8, n: usize) -> IterOut;
     /// the iterator of flavour f is created, `take` items consumed and the iterator returned alive
-    fn live_iter(&mut self, f: u8, take: usize) -> Box<dyn std::any::Any>;
+    /// an iterator advanced by `take` steps and handed out alive; it can be drained later, also
+    /// after every handle and the database object are gone (it owns its share of the map)
+    fn live_iter(&mut self, f: u8, take: usize) -> Box<dyn LiveIter>;
     fn stats(&self) -> Result<StatsOut>;
     /// typed key of the iteration converted back to the integer (U64/I64/Vu64), as i128
     fn key_to_int(&self, k: &[u8]) -> Option<i128>;
@@ -108,6 +174,29 @@ fn int_of_bytes8(b: &[u8]) -> u64 {
     let n = b.len().min(8);
     a[..n].copy_from_slice(&b[..n]);
     u64::from_le_bytes(a)
+}
+
+fn drive_nth<I, T>(mut it: I, n: usize, conv: impl Fn(T) -> (Option<Vec<u8>>, Option<Vec<u8>>)) -> IterOut
+where
+    I: Iterator<Item = T>,
+{
+    let mut out = IterOut::default();
+    loop {
+        crate::exec::tick();
+        out.hints.push(it.size_hint());
+        match it.nth(n) {
+            Some(x) => out.items.push(conv(x)),
+            None => {
+                out.ended = true;
+                break;
+            }
+        }
+        if out.items.len() > 10_000_000 {
+            break;
+        }
+    }
+    out.hints.push(it.size_hint());
+    out
 }
 
 fn drive<I, T>(
@@ -248,11 +337,25 @@ macro_rules! impl_maph {
                 self.0.bulk_put_string(&bulk)
             }
             fn put_from_iter(&mut self, kvs: &[(Vec<u8>, Vec<u8>)]) -> Result<()> {
-                let v: Vec<($kt, Vec<u8>)> = kvs
+                let mut v: Vec<($kt, Vec<u8>)> = kvs
                     .iter()
                     .map(|kv| (<$kt>::from_bytes(&kv.0), kv.1.clone()))
                     .collect();
-                self.0.put_from_iter(v.into_iter())
+                // iterator kinds by the batch: exact size, filtered (0, Some(n)), generator (0, None),
+                // known head chained to a generator (h, None)
+                match v.len() % 4 {
+                    0 => self.0.put_from_iter(v.into_iter()),
+                    1 => self.0.put_from_iter(v.into_iter().filter(|_| true)),
+                    2 => {
+                        let mut it = v.into_iter();
+                        self.0.put_from_iter(std::iter::from_fn(move || it.next()))
+                    }
+                    _ => {
+                        let h = v.len() / 2;
+                        let mut tail = v.split_off(h).into_iter();
+                        self.0.put_from_iter(v.into_iter().chain(std::iter::from_fn(move || tail.next())))
+                    }
+                }
             }
             fn put_from_own_iter(&mut self, t: u8) -> Result<()> {
                 let reader = self.0.clone();
@@ -302,6 +405,18 @@ macro_rules! impl_maph {
                     _ => drive((&mut self.0).into_iter(), take, extra, kv),
                 }
             }
+            fn iterate_nth(&mut self, f: u8, n: usize) -> IterOut {
+                let kv = |(k, v): ($kt, Vec<u8>)| (Some(k.as_bytes().to_vec()), Some(v));
+                match f {
+                    0 => drive_nth(self.0.iter(), n, kv),
+                    1 => drive_nth(self.0.iter_mut(), n, kv),
+                    2 => drive_nth(self.0.keys(), n, |k: $kt| (Some(k.as_bytes().to_vec()), None)),
+                    3 => drive_nth(self.0.values(), n, |v: Vec<u8>| (None, Some(v))),
+                    4 => drive_nth(self.0.clone().into_iter(), n, kv),
+                    5 => drive_nth((&self.0).into_iter(), n, kv),
+                    _ => drive_nth((&mut self.0).into_iter(), n, kv),
+                }
+            }
             fn iterate_mixed(&mut self, f: u8, every: usize, between: &mut dyn FnMut(&mut dyn MapH, usize)) -> IterOut {
                 let kv = |(k, v): ($kt, Vec<u8>)| (Some(k.as_bytes().to_vec()), Some(v));
                 let mut other = $wrap(self.0.clone());
@@ -347,36 +462,13 @@ macro_rules! impl_maph {
                 }
                 out
             }
-            fn live_iter(&mut self, f: u8, take: usize) -> Box<dyn std::any::Any> {
+            fn live_iter(&mut self, f: u8, take: usize) -> Box<dyn LiveIter> {
+                let kv = |(k, v): ($kt, Vec<u8>)| (Some(k.as_bytes().to_vec()), Some(v));
                 match f % 4 {
-                    0 => {
-                        let mut it = self.0.iter();
-                        for _ in 0..take {
-                            let _ = it.next();
-                        }
-                        Box::new(it)
-                    }
-                    1 => {
-                        let mut it = self.0.keys();
-                        for _ in 0..take {
-                            let _ = it.next();
-                        }
-                        Box::new(it)
-                    }
-                    2 => {
-                        let mut it = self.0.values();
-                        for _ in 0..take {
-                            let _ = it.next();
-                        }
-                        Box::new(it)
-                    }
-                    _ => {
-                        let mut it = self.0.clone().into_iter();
-                        for _ in 0..take {
-                            let _ = it.next();
-                        }
-                        Box::new(it)
-                    }
+                    0 => live(self.0.iter(), take, 0, kv),
+                    1 => live(self.0.keys(), take, 2, |k: $kt| (Some(k.as_bytes().to_vec()), None)),
+                    2 => live(self.0.values(), take, 3, |v: Vec<u8>| (None, Some(v))),
+                    _ => live(self.0.clone().into_iter(), take, 4, kv),
                 }
             }
             fn stats(&self) -> Result<StatsOut> {
